@@ -25,6 +25,11 @@ def run(prop, quick=(8, 40), thorough=(16, 500), extra=None, require=(), maxstmt
                 R.inconc("repository test-suite under monitors: %s" % err[-300:])
             else:
                 R.merge(res[prop])
+        for job, res, err in shard.run_jobs("vf.progwork", "examples_under_monitors", [dict(props=[prop])], timeout=900):
+            if err:
+                R.inconc("repository examples under monitors: %s" % err[-300:])
+            else:
+                R.merge(res[prop])
     return R, R.finish(require_counters=require)
 
 
